@@ -13,7 +13,10 @@ RULE = ('scripted error model + scripted rng + recording decoder drive the real 
         'library codes, random valid codes and arbitrary matrices; T in 1..6; q in {0,0.3,1,None}; all 16 override '
         'subsets of DecodeResult plus bare/None answers, valid and code-space-leaving recoveries, random '
         'logical_commutations/custom vectors; compared exactly: decoder arguments (syndrome, error, step measurement '
-        'errors, rng.choice calls) and the returned dict; plus the argument validators over a value grid. '
+        'errors, rng.choice calls) and the returned dict, every field rendered shape-tolerantly (None / non-vector / '
+        'non-int / missing key are outcomes, not harness errors) with key-set and evaluated-lc shape flags; recovered '
+        'state in / outside the code space x (success, lc) unspecified counted; plus the argument validators over a '
+        'value grid. '
         'non-trivial = some step error or flip is non-zero')
 
 
@@ -169,19 +172,29 @@ def run(ctx):
             if any(c != p for c in em.calls) or len(em.calls) != T:
                 flags.append('BADGENERATE')
             if out is not None:
+                # the returned dict is rendered field by field; a field of an unexpected shape (None where a vector is
+                # due, a non-bool verdict, a scalar, ...) is rendered as such instead of breaking the comparison
                 o = '{}:{}:{}:{}'.format(
-                    int(out['error_weight']),
-                    int(out['success']) if isinstance(out['success'], bool) else 'notbool',
-                    'N' if out['logical_commutations'] is None else ilist(out['logical_commutations']),
-                    'N' if out['custom_values'] is None else ilist(out['custom_values']))
+                    _fint(_get(out, 'error_weight')),
+                    int(_get(out, 'success')) if isinstance(_get(out, 'success'), bool) else 'notbool',
+                    _fvec(_get(out, 'logical_commutations')), _fvec(_get(out, 'custom_values')))
+                if not isinstance(out, dict) or set(out) != {'error_weight', 'success', 'logical_commutations',
+                                                             'custom_values'}:
+                    flags.append('BADKEYS')
                 # pass-through must be identity, not a copy with other content
                 if akind == 'res':
-                    if lc is not None and out['logical_commutations'] is not lc: flags.append('LCNOTPASSED')
-                    if out['custom_values'] is not cv: flags.append('CVNOTPASSED')
+                    if lc is not None and _get(out, 'logical_commutations') is not lc: flags.append('LCNOTPASSED')
+                    if _get(out, 'custom_values') is not cv: flags.append('CVNOTPASSED')
+                # values evaluated by the run (not supplied) have the documented shape: one entry per logical
+                if akind in ('bare', 'res') and rec is not None and lc is None:
+                    v = _get(out, 'logical_commutations')
+                    if not isinstance(v, np.ndarray) or v.shape != (len(L),):
+                        flags.append('BADLCSHAPE')
             else:
                 o = err
             impl = 'syn={} err={} meas={} calls={} out={}'.format(
-                mat(syn2), bits(kw.get('error', [])), mat(kw.get('step_measurement_errors', [])), len(srng.calls), o)
+                _safe(mat, syn2), _safe(bits, kw.get('error', [])), _safe(mat, kw.get('step_measurement_errors', [])),
+                len(srng.calls), o)
         if flags:
             impl += ' ' + ','.join(flags)
         line = 'c01 run {} {} {} {} {} {} {}'.format(
@@ -199,10 +212,14 @@ def run(ctx):
             cs = not np.any(_bsp(recovered, S)); lcs = _bsp(recovered, L)
             exp_s = (cs and not np.any(lcs)) if su is None else su
             exp_lc = lcs if lc is None else lc
-            if bool(out['success']) != bool(exp_s) or list(out['logical_commutations']) != list(exp_lc):
+            got_lc = _get(out, 'logical_commutations')
+            if _get(out, 'success') is not bool(exp_s) or _fvec(got_lc) != _fvec(exp_lc):
                 ctx.monitor_fail('verdict differs from what error and recovery imply',
                                  {'line': line, 'impl': impl, 'expected_success': bool(exp_s),
                                   'expected_lc': [int(x) for x in exp_lc]})
+            ctx.count('recovered', 'in-code-space' if cs else 'outside-code-space')
+            if not cs:
+                ctx.count('outside-code-space unspecified', '{}{}'.format(int(su is None), int(lc is None)))
     # ---- validators: rejected before anything is simulated
     code = FiveQubitCode()
     grid_p = [-1, -0.1, -1e-300, 0, 0.0, 0.25, 1, 1.0, 1.0000001, 2, float('inf'), float('nan')]
@@ -253,6 +270,41 @@ def run(ctx):
             continue
         ctx.case('c01 videal {}'.format(rat(Fraction(p))), impl)
     return ctx.finish(RULE, search=search)
+
+
+def _safe(f, v):
+    """wire form of a value handed to the decoder; a value of an unexpected shape is described, not raised on"""
+    try:
+        return f(v)
+    except Exception:
+        return 'unrenderable<{}>'.format(type(v).__name__)
+
+
+def _get(out, key):
+    try:
+        return out[key]
+    except Exception:
+        return '<missing>'
+
+
+def _fint(v):
+    """an integer field, or a description of what is there instead"""
+    if isinstance(v, (int, np.integer)) and not isinstance(v, bool):
+        return str(int(v))
+    return 'notint<{}>'.format(type(v).__name__)
+
+
+def _fvec(v):
+    """a vector field in wire form; None -> N; anything that is not a flat sequence of integers is described"""
+    if v is None:
+        return 'N'
+    try:
+        a = np.asarray(v)
+        if a.ndim != 1 or (a.size and a.dtype.kind not in 'iub'):
+            return 'notvec<{}{}>'.format(a.dtype.kind, list(a.shape))
+        return ilist([int(x) for x in a])
+    except Exception:
+        return 'notvec<{}>'.format(type(v).__name__)
 
 
 def _bsp(v, M):
